@@ -287,6 +287,9 @@ func (e *Engine) load() error {
 	for _, p := range e.cfg.InitPkgs {
 		e.initPkgs[p] = true
 	}
+	// the package under test is always initialised (its package-level vars hold
+	// their real initial values); its followed imports are initialised by its init
+	e.initPkgs[e.target.Pkg.Path()] = true
 	e.redirects = map[string]*ssa.Function{}
 	for from, to := range e.cfg.Redirects {
 		f := e.target.Func(to)
